@@ -8,6 +8,7 @@ import ProphyModel.Py
 import ProphyModel.PLayout
 import ProphyModel.Topo
 import ProphyModel.Expr
+import ProphyModel.Lemmas.ExprHost
 import ProphyModel.Cpp
 import ProphyModel.Text
 import ProphyModel.Raw
@@ -350,6 +351,26 @@ def handle (st : DState) (j : Json) : Except String (DState × Json) := do
     | .value v => pure (st, Json.mkObj [("value", Json.num (JsonNumber.fromInt v))])
     | .syntaxError => pure (st, Json.mkObj [("error", "syntax")])
     | .evalError x => pure (st, Json.mkObj [("error", evalErrJson x)])
+  | "prophyc_host" =>
+    -- what the host languages compute from expression text that prophyc pasted (Lemmas/ExprHost.lean):
+    -- calc's tree and value, the tree Python / C++ read, Python's value, C++'s value in `int` arithmetic
+    let text ← getStr j "text"
+    let env ← envOfJson (← j.getObjVal? "env")
+    let res : Except Expr.EvalErr Int → Json := fun r => match r with
+      | .ok v => Json.num (JsonNumber.fromInt v)
+      | .error x => Json.mkObj [("error", evalErrJson x)]
+    match Expr.tokenize false text with
+    | none => pure (st, Json.mkObj [("error", "syntax")])
+    | some toks =>
+      let ctree := Expr.parse toks
+      let host := Expr.parseWith Expr.hostInfo toks
+      pure (st, Json.mkObj [
+        ("calc", match ctree with | some a => res (Expr.eval env a) | none => Json.str "syntax"),
+        ("same_tree", Json.bool (ctree.isSome && ctree == host)),
+        ("py", match host with | some b => res (Expr.evalPy env b) | none => Json.str "syntax"),
+        ("cpp", match host with | some b => res (Expr.evalCpp env b) | none => Json.str "syntax"),
+        ("prec_safe", match ctree with | some a => Json.bool (Expr.precSafe a) | none => Json.null),
+        ("int32_safe", match ctree with | some a => Json.bool (Expr.int32Safe env a) | none => Json.null)])
   | "prophyc_const" =>
     let text ← getStr j "text"
     let env ← envOfJson (← j.getObjVal? "env")
